@@ -597,6 +597,36 @@ def run(index: RepoIndex, rep) -> None:
               'gym_gridverse/grid_object.py', 'GridObjectRegistry.from_name', fr.node.lineno,
               '; '.join(src(e.stmt)[:60] for e in rz),
               'an unknown object name does not raise ValueError', 'unknown object -> ValueError')
+    # registries answer from their live content: a lookup structure kept besides the
+    # registered items must be invalidated by register()
+    n_reg = 0
+    for mod_ in index.modules.values():
+        if not mod_.relpath.startswith(PKG):
+            continue
+        for c_ in mod_.classes.values():
+            reg_m = index.method(c_, 'register')
+            if reg_m is None:
+                continue
+            n_reg += 1
+            writes: Dict[str, Set[str]] = {}
+            for mn, mf in list(c_.methods.items()) + [('register', reg_m)]:
+                ww = walk_function(mf.node)
+                writes[mn] = {src(e.target) for e in ww.events
+                              if e.kind in ('attrstore', 'augstore')
+                              and src(e.target).startswith('self.')}
+            keep = writes.get('register', set()) | writes.get('__init__', set())
+            for mn, ws in sorted(writes.items()):
+                if mn in ('register', '__init__', '__setitem__', '__delitem__'):
+                    continue
+                stale = sorted(ws - writes.get('register', set()))
+                rep.check(not stale, 'C17.R5', mod_.relpath, f'{c_.name}.{mn}',
+                          c_.methods[mn].node.lineno, ', '.join(stale) or f'{c_.name}.{mn}',
+                          f'{c_.name}.{mn} fills {stale}, which register() never refreshes: a '
+                          f'class or function registered later (an on-demand custom import) '
+                          f'is not found, so whether a configuration builds depends on what '
+                          f'was built before it', f'{c_.name}.{mn}: no stale lookup cache')
+    if n_reg < 8:
+        raise AnalysisError(f'found {n_reg} registry classes, floor is 8')
     ic = index.func('gym_gridverse/utils/custom.py', 'import_if_custom')
     b = ic.body()
     p = ic.node.args.args[0].arg
